@@ -9,8 +9,12 @@ import (
 	"go.mongodb.org/mongo-driver/bson/primitive"
 )
 
-// R is a splitmix64 PRNG.
-type R struct{ s uint64 }
+// R is a splitmix64 PRNG. Hint is an optional per-case bias object set by a stream (e.g. the
+// document whose paths/values generated conditions should refer to).
+type R struct {
+	s    uint64
+	Hint interface{}
+}
 
 // New derives a generator from seed, shard and index.
 func New(seed, shard, index uint64) *R {
